@@ -321,7 +321,85 @@ func c15RegistryCase(c *Ctx, k int) {
 		// the same through a model
 		c15ForeignModel(c, name)
 	default:
+		if c.Idx%3 == 0 {
+			c15AbsentAtModelLevel(c)
+			return
+		}
 		c15GateBeforeCompute(c)
+	}
+}
+
+// optionalInputOps are the operators with optional inputs.
+var optionalInputOps = []string{"Gemm", "Conv", "RNN", "GRU", "LSTM", "Squeeze", "Slice", "Clip"}
+
+// c15AbsentAtModelLevel: at model level an optional input written as "" must
+// reach the operator as absent (nil), whatever else the graph contains - in
+// particular an earlier multi-output node that OMITS one of its outputs (also
+// written ""). The graph with the skipped inputs spelled "" must behave exactly
+// like the graph that simply does not list them, and the operator proxy must see
+// nil at those positions.
+func c15AbsentAtModelLevel(c *Ctx) {
+	r := c.R
+	name := optionalInputOps[r.Intn(len(optionalInputOps))]
+	if _, ok := onnxArity[name]; !ok {
+		name = "Gemm"
+	}
+	req, _, ok := SampleValidReq(r, name, false)
+	if !ok {
+		c.Skip("no sample request")
+		return
+	}
+	// spell every absent trailing optional input explicitly
+	for len(req.Inputs) < onnxArity[name][1] {
+		req.Inputs = append(req.Inputs, nil)
+	}
+	nNil := 0
+	for _, in := range req.Inputs {
+		if in == nil {
+			nNil++
+		}
+	}
+	if nNil == 0 {
+		c.Skip("request without absent inputs")
+		return
+	}
+	c.SetCase("optional inputs of %s written as \"\" behind a node with an omitted output: %s", name, trunc(req.Describe(), 300))
+	c.Nontrivial(fmt.Sprintf("absent-at-model-level|%s|%d|%d", name, len(req.Inputs), nNil))
+	build := func(truncate, withUpstream bool) (*mon.Graph, map[string]*ref.T) {
+		g, feed := mon.BuildOpModel(req, mon.ModelOpts{Truncate: truncate, InitMask: ^uint64(1)})
+		if withUpstream {
+			// an upstream recurrent node whose Y is omitted
+			H := 2
+			x := uniformT(r, ref.F32, []int{2, 1, 3}, 1)
+			w := uniformT(r, ref.F32, []int{1, 3 * H, 3}, 0.4)
+			rr := uniformT(r, ref.F32, []int{1, 3 * H, H}, 0.4)
+			g.Inits = append(g.Inits, mon.GInit{Name: "up_x", T: x}, mon.GInit{Name: "up_w", T: w}, mon.GInit{Name: "up_r", T: rr})
+			up := mon.GNode{Op: "GRU", Name: "upstream", Inputs: []string{"up_x", "up_w", "up_r"}, Outputs: []string{"", "up_h"}, Attrs: []*mon.Attr{mon.AttrI("hidden_size", int64(H))}}
+			g.Nodes = append([]mon.GNode{up}, g.Nodes...)
+		}
+		return g, feed
+	}
+	gPlain, feed := build(true, false)
+	gSpelled, _ := build(false, true)
+	plain := mon.RunGraph(gPlain, feed)
+	tr := mon.RunGraphTraced(gSpelled, feed, nil)
+	c.Eval(2)
+	if tr.Outcome.Kind == mon.Panic {
+		c.Violation("absent-at-model-level:"+name+":panic", "%s", tr.Outcome.Describe())
+		return
+	}
+	if d := diffOutcomes(plain, tr.Outcome); d != "" {
+		c.Violation("absent-at-model-level:"+name+":differs-from-unlisted-inputs", "the graph that lists the skipped inputs as \"\" (behind a node that omits an output) differs from the graph that does not list them: %s", d)
+	}
+	for _, e := range tr.Events {
+		if e.Phase != "apply" || e.OpType != name {
+			continue
+		}
+		for i, in := range req.Inputs {
+			if in == nil && i < len(e.In) && e.In[i] != nil {
+				c.Violation("absent-at-model-level:"+name+":skipped-input-not-nil", "input %d of the %s node is written \"\" in the graph but the operator received a tensor of shape %v", i, name, e.In[i].Shape())
+			}
+		}
 	}
 }
 
